@@ -9,6 +9,9 @@ Driver for the parameter-tree model (exe drv_tree).  One request per line: `<op>
   names  simulation parameters        -> ok   | reject:<kind>      validateNames
   intake [file, file, ...]            -> tree | reject:<kind>      intake (with the stored defs)
   get    [[path], tree]               -> tree | -                  get?
+  hyp    [default, user1, user2]      -> 1 | 0    hypotheses of merge_comm_decidable: all three
+                                                  well-formed, both users accepted by checkTypes [],
+                                                  agreeB user1 user2
 Anything else (or a malformed payload) answers `bad-op`.
 -/
 open LdarModel.Tree LdarModel.Json
@@ -40,6 +43,12 @@ def step (defs : KV) (op payload : String) : KV × String :=
       match kvList? fs with
       | some fs => (defs, showRes (intake defs fs))
       | none => (defs, "bad-op")
+    | "hyp", .list (.cons d (.cons (.obj u1) (.cons (.obj u2) .nil))) =>
+      let ok := d.wf && u1.wf && u2.wf &&
+        (match checkTypes [] d (.obj u1), checkTypes [] d (.obj u2) with
+          | .ok _, .ok _ => true
+          | _, _ => false) && agreeB u1 u2
+      (defs, if ok then "1" else "0")
     | "get", .list (.cons (.list p) (.cons t .nil)) =>
       match strList? p with
       | some p => (defs, match get? p t with | some v => render v | none => "-")
